@@ -306,7 +306,18 @@ func Materialise(s *OpeningSet) (*Openings, error) {
 		if raw := o.ComRaw[op.Poly]; raw != nil {
 			ve = *raw
 		}
-		o.VCs = append(o.VCs, &ve)
+		vp := &ve
+		// the verifier's caller may hand over ONE object for the same commitment, also when it is
+		// opened at different indices
+		if s.LamSeed%2 == 0 {
+			for j := 0; j < i; j++ {
+				if s.Ops[j].Poly == op.Poly {
+					vp = o.VCs[j]
+					break
+				}
+			}
+		}
+		o.VCs = append(o.VCs, vp)
 		y := o.PolyFr[op.Poly][op.Z]
 		yp := &y
 		// a caller may hand over ONE object for equal claimed values
